@@ -230,6 +230,8 @@ def run (ctx):
   _skipwords(ctx, repo)
   _udp_zero(ctx, repo)
   _hdr_copies(ctx, repo)
+  _lldp_tlv_header(ctx, repo)
+  _unparsed_payload(ctx, repo)
   from . import c15b
   ctx.stat('TLV value slices compared', c15b.tlv_value_slices(ctx, [c for mn in ('tcp', 'dhcp', 'lldp', 'icmpv6', 'ipv6') for c in repo.mod(PK + '.' + mn).classes.values()], 'D2'))
   _option_walkers(ctx, repo)
@@ -492,6 +494,71 @@ def _skipwords (ctx, repo):
         ctx.ob('R-AGREE', f, "%s over IPv%d: skip word == (pseudo-header %d + checksum offset %d) / 2" % (cname.upper(), ver, size, cs_off), k == want,
                "%d" % k if k == want else "checksum() is told to skip word %d but the checksum field is word %d of pseudo-header+segment: verification of received segments sums the wrong word" % (k, want), (mod, c), 'D4')
   ctx.floor('skip-word constants', n, 4)
+
+def _unparsed_payload (ctx, repo):
+  """IPv4 / IPv6: a next-layer object that could not parse its bytes is replaced by those bytes (confirmed on the reference tree
+  for exactly these two parsers; icmp.parse, for one, keeps no raw copy, so an unparsed icmp object re-packs as an invented header)"""
+  for mname, cname in (('ipv4', 'ipv4'), ('ipv6', 'ipv6')):
+    mod = repo.mod(PK + '.' + mname); cls = mod.classes.get(cname)
+    f = cls.methods.get('parse') if cls is not None else None
+    if f is None: continue
+    g = q.cfg_of(f)
+    ctor = []; fallback = []
+    for t, v, st, k in q.stores_in(f.node, nested=False):
+      if not (isinstance(t, ast.Attribute) and t.attr == 'next' and norm(t.value) == 'self') or v is None: continue
+      n = q.enclosing_stmt_node(g, st)
+      if isinstance(v, ast.Call) and (kwarg(v, 'raw') is not None or kwarg(v, 'prev') is not None): ctor.append(n)
+      elif isinstance(v, ast.Subscript) and isinstance(v.slice, ast.Slice) and n is not None and any('.parsed:falsy' in x and 'self.next' in x for x in q.fact_strs(g, n)): fallback.append(n)
+    if not ctor:
+      ctx.undecided('R-EFFECT', f, "an unparsed next-layer object is replaced by its bytes", "no next-layer constructor found in parse()", f, 'D2'); continue
+    good = bool(fallback) and all(any(fb in g.reachable(c_, exc=False) for fb in fallback) for c_ in ctor if c_ is not None)
+    ctx.ob('R-EFFECT', f, "an unparsed next-layer object is replaced by its bytes", good, "self.next = raw[...] under `not self.next.parsed` after every constructor" if good else
+           "%s.parse keeps a next-layer object that did not parse: packet_base.pack() re-emits such an object from its `raw` copy, which icmp.parse (for one) never stores - an IPv4 datagram with a truncated ICMP header is re-serialised with an invented 4-byte header, longer than it was received"
+           % cname, f, 'D2')
+
+def _lldp_tlv_header (ctx, repo):
+  """LLDP TLV header: 7 bits of type and 9 bits of length.  The two readers (lldp.next_tlv, simple_tlv.parse) evaluated on a
+  TLV of type 5 with a 300-byte value (the ninth length bit set) followed by ten more bytes"""
+  mod = repo.mod(PK + '.lldp')
+  lc = mod.classes.get('lldp'); st = mod.classes.get('simple_tlv')
+  raw = struct.pack('!H', (5 << 9) | 300) + b'z' * 300
+  if st is not None and st.methods.get('parse') is not None:
+    f = st.methods['parse']; ctx.analysed(f); g = q.cfg_of(f)
+    seen = []
+    def hook (call, env=None):
+      if call_name(call) == '_parse_data' and call.args:
+        try: seen.append(len(q.eval_env2(repo, mod, call.args[0], env, st)))
+        except Exception: seen.append('?')
+        return (True, None)
+      return (False, None)
+    hook.wants_env = True; hook.effects = True
+    types_ = set()
+    for p_, e_ in q.paths_under(repo, mod, g, q.Env({f.params[1]: raw, 'self.tlv_type': None}, [], hook), g.entry, [g.exit], st, limit=30):
+      types_.add(e_.exact.get('self.tlv_type', '?'))
+    if not seen or '?' in seen or '?' in types_ or not types_:
+      ctx.undecided('R-AGREE', f, "simple_tlv.parse reads 7 bits of type and 9 bits of length", "not evaluable on the sample TLV (%s / %s)" % (seen[:2], sorted(map(str, types_))), f, 'D2')
+    else:
+      good = set(seen) == {300} and types_ == {5}
+      ctx.ob('R-AGREE', f, "simple_tlv.parse reads 7 bits of type and 9 bits of length", good, "type 5, 300 value bytes" if good else
+             "for a TLV of type 5 with a 300-byte value the parser hands %s byte(s) to _parse_data and records type %s: the ninth length bit is lost, the value is cut short and parsing continues in the middle of it"
+             % (sorted(set(seen)), sorted(types_)), f, 'D2')
+  if lc is not None and lc.methods.get('next_tlv') is not None:
+    f = lc.methods['next_tlv']; ctx.analysed(f); g = q.cfg_of(f)
+    ms = [((lambda e: isinstance(e, ast.Compare) and len(e.ops) == 1 and isinstance(e.ops[0], (ast.In, ast.NotIn)) and 'tlv_parsers' in norm(e.comparators[0])), False)]
+    def hook2 (call, env=None):
+      if call_name(call) in ('unknown_tlv', 'msg') or isinstance(call.func, ast.Subscript): return (True, q.Rec(name='tlv'))
+      if call_name(call) == 'get' and 'tlv_parsers' in norm(call.func.value): return (True, None)
+      return (False, None)
+    hook2.wants_env = True
+    rets = set()
+    for p_, e_ in q.paths_under(repo, mod, g, q.Env({f.params[1]: raw + b'Q' * 10}, ms, hook2), g.entry, [n for n in g.nodes if n.kind == 'return'], lc, limit=40):
+      try: rets.add(q.eval_env2(repo, mod, p_[-1].ast.value, e_, lc) if p_[-1].ast.value is not None else None)
+      except Exception: rets.add('?')
+    if not rets or '?' in rets:
+      ctx.undecided('R-AGREE', f, "lldp.next_tlv advances by 2 + the 9-bit length", "not evaluable on the sample TLV (%s)" % sorted(map(str, rets)), f, 'D2')
+    else:
+      ctx.ob('R-AGREE', f, "lldp.next_tlv advances by 2 + the 9-bit length", rets == {302}, "302" if rets == {302} else
+             "for a TLV with a 300-byte value next_tlv returns %s instead of 302: the next TLV is read from the middle of this one's value" % sorted(map(str, rets)), f, 'D2')
 
 def _hdr_copies (ctx, repo):
   """a checksum method that re-creates its own header with self.hdr(...) must get the header that is emitted, except for the
